@@ -367,8 +367,12 @@ func (t *Dense) ShallowClone() *Dense {
 	retVal.flag = t.flag
 	retVal.array = t.array
 
-	retVal.old = t.old
-	retVal.transposeWith = t.transposeWith
+	if !t.old.IsZero() {
+		// the saved access pattern and the axes are pool-managed: the clone gets its own
+		t.old.CloneTo(&retVal.old)
+		retVal.transposeWith = BorrowInts(len(t.transposeWith))
+		copy(retVal.transposeWith, t.transposeWith)
+	}
 	retVal.viewOf = t.viewOf
 	retVal.mask = t.mask
 	retVal.maskIsSoft = t.maskIsSoft
